@@ -493,6 +493,11 @@ inductive WOp where
   | regAny (i : Nat) (h : Nat)
   /-- `obj.add_trait(n, trait)` -/
   | addTrait (i : Nat) (n : Name) (t : TraitCore)
+  /-- `del obj.n` / `obj.reset_traits([n])`: back to the never-assigned state -/
+  | del (i : Nat) (n : Name)
+  /-- a query that reads no attribute value: `obj.traits(**metadata)`, `obj.trait_names(**metadata)`,
+  `obj.editable_traits()` (has_traits.py `traits`: works on a COPY of `__base_traits__`) -/
+  | query (i : Nat)
   deriving DecidableEq, Repr
 
 /-- Run a focused computation on instance `i`, attribute `n`. -/
@@ -569,6 +574,11 @@ def World.step (E : Env) (w : World) : WOp → Res × World
       let s : OSt := { on := o.on }
       ({}, w.setInst i { o with on := (s.regAny h false).on } w.ctx)
   | .addTrait i n t => w.addTrait i n t
+  | .del i n => w.onAttr i n (fun t s => Attr.step E t s .del)
+  | .query i =>
+    match w.insts[i]? with
+    | none => ({ exc := some .indexError }, w)
+    | some _ => ({}, w)
 
 def World.run (E : Env) : World → List WOp → World
   | w, [] => w
